@@ -342,6 +342,16 @@ _bucket_set(Bucket *self, PyObject *keyarg, PyObject *v,
     VALUE_TYPE value = {0};    /* squash nuisance warning */
     int result = -1;    /* until proven innocent */
     int copied = 1;
+    /* A key or value taken out of the bucket is released only after the
+     * bucket has stopped pointing at it (releasing it can run arbitrary
+     * code - a finalizer or weakref callback - that looks at the bucket).
+     */
+#ifdef KEY_TYPE_IS_PYOBJECT
+    PyObject *old_key = NULL;
+#endif
+#ifdef VALUE_TYPE_IS_PYOBJECT
+    PyObject *old_value = NULL;
+#endif
 
     COPY_KEY_FROM_ARG(key, keyarg, copied);
     UNLESS(copied)
@@ -390,7 +400,9 @@ _bucket_set(Bucket *self, PyObject *keyarg, PyObject *v,
 #endif
             if (changed)
                 *changed = 1;
-            DECREF_VALUE(self->values[i]);
+#ifdef VALUE_TYPE_IS_PYOBJECT
+            old_value = self->values[i];
+#endif
             COPY_VALUE(self->values[i], value);
             INCREF_VALUE(self->values[i]);
             if (PER_CHANGED(self) >= 0)
@@ -399,7 +411,13 @@ _bucket_set(Bucket *self, PyObject *keyarg, PyObject *v,
         }
 
         /* The key exists at index i, and should be deleted. */
-        DECREF_KEY(self->keys[i]);
+#ifdef KEY_TYPE_IS_PYOBJECT
+        old_key = self->keys[i];
+#endif
+#ifdef VALUE_TYPE_IS_PYOBJECT
+        if (self->values)
+            old_value = self->values[i];
+#endif
         self->len--;
         if (i < self->len)
             memmove(self->keys + i, self->keys + i+1,
@@ -407,7 +425,6 @@ _bucket_set(Bucket *self, PyObject *keyarg, PyObject *v,
 
         if (self->values)
         {
-            DECREF_VALUE(self->values[i]);
             if (i < self->len)
                 memmove(self->values + i, self->values + i+1,
                         sizeof(VALUE_TYPE)*(self->len - i));
@@ -472,6 +489,12 @@ _bucket_set(Bucket *self, PyObject *keyarg, PyObject *v,
 
 Done:
     PER_UNUSE(self);
+#ifdef KEY_TYPE_IS_PYOBJECT
+    Py_XDECREF(old_key);
+#endif
+#ifdef VALUE_TYPE_IS_PYOBJECT
+    Py_XDECREF(old_value);
+#endif
     return result;
 }
 
